@@ -70,9 +70,13 @@ func report(c *vf.Ctx, r *run) {
 		c.Distinct("nontrivial", key)
 	}
 	c.Distinct("configurations", fmt.Sprintf("%s|w%d|m%d|f%d", sp.Kind, sp.Workers, sp.MaxSize, sp.Flags))
+	if r.gaveUp != "" {
+		c.Count("runs_given_up", 1)
+		observe(c, "given-up", "case given up without a verdict on never-delivered elements (all other rules were still applied): "+r.gaveUp+" ("+sp.key()+")")
+	}
 	if r.hang {
 		c.Count("executor_shutdown_hangs_observed", 1)
-		observe(c, "executor-shutdown-hang", fmt.Sprintf("outside the statement of C18 (not a violation): Executor.Shutdown never returns - its goroutine is parked in WaitGroup.Wait while %d worker(s) are parked for ever in sync.Cond.Wait inside Queue.Poll of a shut-down queue (Shutdown found the heap non-empty and did not broadcast: lost waitCond wake-up); first seen with kind=%s workers=%d flags=%s", r.lastObs.pollCond, sp.Kind, sp.Workers, flagNames(sp.Flags)))
+		observe(c, "executor-shutdown-hang", fmt.Sprintf("outside the statement of C18 (not a violation): Executor.Shutdown never returns - its caller is blocked below Executor.Shutdown waiting for the workers while %d worker(s) are parked for ever below Queue.Poll of a shut-down queue with nothing pending (on the pinned code: Shutdown found the heap non-empty and did not broadcast - lost waitCond wake-up); first seen with kind=%s workers=%d flags=%s", r.lastObs.pollCond+r.lastObs.pollSelect, sp.Kind, sp.Workers, flagNames(sp.Flags)))
 	}
 	if r.patterns["resched-after-shutdown-cancels-without-replacement"] {
 		observe(c, "resched-after-shutdown", "not demanded by C18 (not a violation): TaskExecutor.ExecuteAt after Shutdown cancels the pending task of the identifier and then returns nil, so the old task is lost without a replacement")
@@ -213,9 +217,10 @@ func handle(c *vf.Ctx, j job, res vf.ChildResult) {
 }
 
 // classifyHang decides what a watchdog firing means. Only one pattern is a known
-// observation outside the statement: the current case's Executor.Shutdown parked in
-// WaitGroup.Wait while every goroutine inside Queue.Poll is parked in sync.Cond.Wait
-// (nobody holds an element, no timer pending). Everything else is INCONCLUSIVE.
+// observation outside the statement: the current case's Shutdown caller blocked below the
+// exported Executor.Shutdown (any primitive but a lock) while every goroutine below Queue.Poll
+// is parked in sync.Cond.Wait (the one wait that certainly carries no timer). Everything else is
+// INCONCLUSIVE. This is a last resort: finish() is bounded by logical steps and decides in-process.
 func classifyHang(c *vf.Ctx, j job, res vf.ChildResult) {
 	var m struct {
 		Case   string   `json:"case"`
@@ -232,8 +237,8 @@ func classifyHang(c *vf.Ctx, j job, res vf.ChildResult) {
 			continue
 		}
 		switch {
-		case g.Has("timed.(*Executor).Shutdown") && g.Has("sync.(*WaitGroup).Wait") && strings.HasPrefix(g.State, "semacquire"):
-			shut++
+		case g.Has("main.(*run).doShutdown") && hasTimedMethod(g, "Shutdown") && g.Parked() && !inMutexWait(g):
+			shut++ // blocked below the exported Shutdown in any primitive but a lock
 		case hasPoll(g) && g.State == "sync.Cond.Wait":
 			cond++
 		case hasPoll(g) || g.Has("main.(*run).deliver") || g.Has("main.(*run).client"):
@@ -351,6 +356,9 @@ func parent(c *vf.Ctx) {
 		res := c.RunChild(vf.ChildOpts{Name: j.name, Args: j.args, Race: j.race, Timeout: time.Duration(j.runs)*perRun + time.Minute})
 		handle(c, j, res)
 	})
+	if g, n := c.Get("runs_given_up"), c.Get("runs"); g*100 > n {
+		c.Inconclusive(fmt.Sprintf("%d of %d runs were given up without established quiescence", g, n))
+	}
 	flushObs(c)
 	c.SetExhaustive(false)
 	c.Require("evaluations", c.Pick(30000, 400000))
